@@ -428,6 +428,8 @@ def check_hull_scans(ctx, db):
 def run(ctx):
     db = ctx.db
     ctx.attempt(check_hull_scans, ctx, db)
+    from . import C11   # the box of a repeated element is taken from the extreme offsets: they must span all displacements (interpreted on small repetitions)
+    ctx.attempt(C11.check_extrema_model, ctx, db)
     ctx.attempt(check_empty_box_tests, ctx, db)
     ctx.attempt(check_aggregates, ctx, db)
     ctx.attempt(check_minmax, ctx, db)
